@@ -1,5 +1,5 @@
 \* different pools: the limit may be exceeded only after overlapping cross-pool allocations (recorded finding)
-CONSTANTS Threads = {1, 2}  Sizes = {5, 8}  MaxOpsPerThread = 2  Prefill = 20  Limit = 32  CasOnTotal = FALSE
+CONSTANTS Threads = {1, 2}  Sizes = {2, 8}  MaxOpsPerThread = 2  Prefill = 22  Limit = 32  CasOnTotal = FALSE
 CONSTANT PoolsOf <- PoolsMixed
 SPECIFICATION Spec
 VIEW view
